@@ -249,6 +249,9 @@ func c13Facts() ([]string, map[string]string, error) {
 	})
 	method("docSetNodesClearsFamilies", "Document.SetNodes", func(e *c13Effects) bool { return e.writes["families"] })
 	method("docSetNodesResetsIndividuals", "Document.SetNodes", invalidatesIndividuals)
+	// the generic Document.AddNode changes the records: it must make individuals recompute (its own
+	// statements and helpers only — AddIndividual/AddFamily call it, not the other way round)
+	method("docAddBumpsLinks", "Document.AddNode", func(e *c13Effects) bool { return e.writes["familyLinksVersion"] })
 	return order, facts, nil
 }
 
